@@ -639,10 +639,71 @@ func runHistOp(rd *mcap.Reader, op histOp) (res string) {
 	return out
 }
 
+// midScanInfo: Info() (and Info().ChannelCounts(), CanReadMessagesUsingIndex()) called after the
+// j-th message of a sequential scan on the same Reader, for every j: the scan must go on to return
+// exactly what an undisturbed scan returns.
+func midScanInfo(x *explore.Ctx, files []*arrangement) *explore.Verdict {
+	fi := x.Choose("op", len(files))
+	scan := func(infoAfter int) (string, string) {
+		rd, err := mcap.NewReader(bytes.NewReader(files[fi].bytes))
+		if err != nil {
+			return "", "NewReader: " + err.Error()
+		}
+		defer rd.Close()
+		it, err := rd.Messages(mcap.UsingIndex(false))
+		if err != nil {
+			return "", "Messages: " + err.Error()
+		}
+		out, infoRes := "", ""
+		for n := 0; ; n++ {
+			if n == infoAfter {
+				info, err := rd.Info()
+				if err != nil {
+					infoRes = "error: " + err.Error()
+				} else {
+					_ = info.ChannelCounts()
+					_ = info.CanReadMessagesUsingIndex()
+					infoRes = infoDigest(info)
+				}
+			}
+			_, c, m, err := it.NextInto(nil)
+			if err != nil {
+				out += " end:" + err.Error()
+				break
+			}
+			out += fmt.Sprintf(" #%d@%d/c%d", m.Sequence, m.LogTime, c.ID)
+		}
+		return out, infoRes
+	}
+	plain, _ := scan(-1)
+	total := len(files[fi].msgs)
+	j := x.Choose("op", total+2)
+	x.Ops += 2
+	x.Note = func() any { return map[string]any{"file": fi, "info_after_message": j} }
+	x.State = explore.Hash([]byte(fmt.Sprint("mid", fi, j)))
+	defer func() {
+		if p := recover(); p != nil {
+			panic(p)
+		}
+	}()
+	got, info := scan(j)
+	_, freshInfo := scan(0)
+	if got != plain {
+		return vio("HIST:scan-disturbed-by-Info", "a sequential scan with Info() called after message %d returns %q; undisturbed it returns %q (file %d)", j, got, plain, fi)
+	}
+	if j <= total && info != freshInfo {
+		return vio("HIST:Info-depends-on-reader-history", "Info() called after message %d of a sequential scan returns %q; called first it returns %q (file %d)", j, info, freshInfo, fi)
+	}
+	return nil
+}
+
 func histBody(depth int) explore.Body {
 	files := histFiles()
 	fresh := map[string]string{}
 	return func(x *explore.Ctx) *explore.Verdict {
+		if x.Choose("op", 2) == 1 {
+			return midScanInfo(x, files)
+		}
 		fi := x.Choose("op", len(files))
 		n := 1 + x.Choose("op", depth)
 		rd, err := mcap.NewReader(bytes.NewReader(files[fi].bytes))
